@@ -424,6 +424,7 @@ func TestCheck(t *testing.T) {
 		{Name: "history", Bound: bound, Prune: true, Wrap: report.Bubble(t), Body: func(r *explore.Run) { body(r, rep, "history", depth-1, true, skip) }},
 		// One live controller instance, no memo: a faulted reconcile and its retries.
 		{Name: "live-instance-retry/fresh", Bound: 1, Wrap: report.Bubble(t), Body: func(r *explore.Run) { retryBody(r, rep, "live-instance-retry/fresh", false) }},
+		{Name: "live-instances-sequence", Bound: 0, Wrap: report.Bubble(t), Body: func(r *explore.Run) { liveSequenceBody(r, rep, "live-instances-sequence", 5) }},
 		{Name: "faithful-capture", Bound: 0, Wrap: report.Bubble(t), Body: func(r *explore.Run) { captureBody(r, rep, "faithful-capture") }},
 		{Name: "live-instance-retry/history", Bound: 1, Wrap: report.Bubble(t), Body: func(r *explore.Run) { retryBody(r, rep, "live-instance-retry/history", true) }},
 	}
